@@ -997,13 +997,18 @@ func literalFields(fd *FuncDecl, rel, typeName string) map[string]bool {
 
 // derivedFields: cache fields that are not read back from storage, one reason each.
 var derivedFields = map[string]string{
-	"NeoCache.votesChanged":              "dirty flag: starts set, so the first epoch boundary recomputes",
 	"PolicyCache.faunInitialized":        "set by fillCacheFromDAO from the hardfork state",
 	"PolicyCache.maxVerificationGas":     "constant default, not configurable through storage",
 	"DesignationCache.rolesChangedFlag":  "per-block notification flag, false at start",
 	"PolicyCache.msPerBlock":             "filled only when the Echidna storage record exists",
 	"PolicyCache.maxVUBIncrement":        "filled only when the Echidna storage record exists",
 	"PolicyCache.maxTraceableBlocks":     "filled only when the Echidna storage record exists",
+}
+
+// startsSet: in-memory dirty flags that have no storage record; the rebuilt cache must start with them raised,
+// because whatever happened before the restart is unknown (one reason each).
+var startsSet = map[string]string{
+	"NeoCache.votesChanged": "votes cast earlier in the epoch are not remembered across a restart: the first epoch boundary after it must recompute committee and validators",
 }
 
 func ruleCacheInit(c *Ctx) {
@@ -1034,6 +1039,7 @@ func ruleCacheInit(c *Ctx) {
 		}
 		// transitive writes (field assignments + literals) inside package native
 		written := map[string]bool{}
+		setTrue := map[string]bool{}
 		seen := map[*types.Func]bool{}
 		var visit func(f *types.Func)
 		visit = func(f *types.Func) {
@@ -1048,6 +1054,32 @@ func ruleCacheInit(c *Ctx) {
 				for fl := range literalFields(d, natPkg, name) {
 					written[natPkg+"#"+fl] = true
 				}
+				// fields initialised to the constant true (literal element or assignment)
+				ast.Inspect(d.Decl.Body, func(n ast.Node) bool {
+					switch x := n.(type) {
+					case *ast.CompositeLit:
+						if namedTypeIs(d.Pkg.TypesInfo.TypeOf(x), natPkg, name) {
+							for _, el := range x.Elts {
+								if kv, ok := el.(*ast.KeyValueExpr); ok {
+									if id, ok := kv.Key.(*ast.Ident); ok {
+										if v, isC := boolConst(d.Pkg.TypesInfo, kv.Value); isC && v {
+											setTrue[natPkg+"#"+id.Name] = true
+										}
+									}
+								}
+							}
+						}
+					case *ast.AssignStmt:
+						if len(x.Lhs) == 1 && len(x.Rhs) == 1 {
+							if se, ok := ast.Unparen(x.Lhs[0]).(*ast.SelectorExpr); ok && namedTypeIs(d.Pkg.TypesInfo.TypeOf(se.X), natPkg, name) {
+								if v, isC := boolConst(d.Pkg.TypesInfo, x.Rhs[0]); isC && v {
+									setTrue[symOf(d.Pkg.TypesInfo.ObjectOf(se.Sel))] = true
+								}
+							}
+						}
+					}
+					return true
+				})
 				// address of a field taken (v = &cache.oracles; v.nodes = ...): the field is filled through the pointer
 				ast.Inspect(d.Decl.Body, func(n ast.Node) bool {
 					if u, ok := n.(*ast.UnaryExpr); ok && u.Op == token.AND {
@@ -1081,6 +1113,12 @@ func ruleCacheInit(c *Ctx) {
 			nfields++
 			key := name + "." + fld.Name()
 			switch {
+			case startsSet[key] != "":
+				if setTrue[symOf(fld)] {
+					c.OK("init."+key, c.P.Pos(init.Decl.Pos()), "InitializeCache raises the flag "+key+": "+startsSet[key])
+				} else {
+					c.Fail("init."+key, c.P.Pos(init.Decl.Pos()), fmt.Sprintf("%s does not raise %s in the rebuilt cache: %s", FuncKey(init.Obj), key, startsSet[key]))
+				}
 			case written[symOf(fld)]:
 				c.OK("init."+key, c.P.Pos(init.Decl.Pos()), "InitializeCache (transitively) fills "+key)
 			case derivedFields[key] != "":
